@@ -112,6 +112,18 @@ pub fn run(cfg: &RunCfg) -> PropRun {
     let mut run = PropRun::default();
     run.rule = "pairs (A, B) of Range values: leaves are 1..3 alternatives of interval texts (every inclusive/exclusive/unbounded combination, exact, caret/tilde/x/hyphen/partial-upper sugar) over a sorted pool of 3..8 versions drawn from <=5 neighbouring tuples x tags {release,-0,-a,-a.0,-b}; operands are leaves or results of one earlier intersect/difference. Oracle: pointwise on ~40 probes per bound version: within(A∩B) == within(A)&&within(B) on the interval models read from Display; releases: sat equality; prereleases: the two implications of the statement; None => exact emptiness of the overlap; A∩B vs B∩A and A∩A vs A pointwise. Non-trivial = operands share a bound version or an endpoint of one lies within the other; distinct by the two operand texts.".into();
     run.assumptions = vec!["bounds membership of a Range value is read from its canonical Display".into()];
+    // every ordered pair of the 91 single intervals over the adjacent 6-version chain (all bound kinds)
+    let ivs = crate::props::c09::structured_intervals();
+    let n = ivs.len();
+    let ir = &ivs;
+    let out = enumerate(
+        cfg,
+        "structured-pairs",
+        move |shard, nsh| (0..n).filter(move |i| i % nsh == shard).flat_map(move |i| (0..n).map(move |j| (i, j))),
+        move |(i, j), st| check_pair(&PairCase { a: Expr::Leaf(ir[*i].clone()), b: Expr::Leaf(ir[*j].clone()), extra: vec![] }, st),
+    );
+    run.absorb(out);
+    run.stats.exhaustive_subspaces.push(json!({"name": "single intervals over an adjacent 6-version chain, all bound kinds", "intervals": n, "ordered_pairs": n * n}));
     let out = campaign(cfg, ID, "pairs", cfg.pick(400_000, 4_000_000), || pair_strategy(1, 3), check_pair);
     run.absorb(out);
     let tie = run.stats.class_count("tie(shared bound version)");
@@ -120,7 +132,13 @@ pub fn run(cfg: &RunCfg) -> PropRun {
     run
 }
 
-pub fn replay(_campaign: &str, case: &Value) -> Result<(), Failure> {
-    let c: PairCase = serde_json::from_value(case.clone()).map_err(|e| Failure::new("bad-replay", e.to_string()))?;
+pub fn replay(campaign: &str, case: &Value) -> Result<(), Failure> {
+    let bad = |e: serde_json::Error| Failure::new("bad-replay", e.to_string());
+    if campaign == "structured-pairs" {
+        let (i, j): (usize, usize) = serde_json::from_value(case.clone()).map_err(bad)?;
+        let ivs = crate::props::c09::structured_intervals();
+        return check_pair(&PairCase { a: Expr::Leaf(ivs[i].clone()), b: Expr::Leaf(ivs[j].clone()), extra: vec![] }, &mut Stats::default());
+    }
+    let c: PairCase = serde_json::from_value(case.clone()).map_err(bad)?;
     check_pair(&c, &mut Stats::default())
 }
